@@ -294,7 +294,7 @@ func checkC18(ca *checkArgs) int {
 	}
 	code := 0
 	var replayFiles []string
-	dir := filepath.Join(verifDir, "replays", "C18")
+	dir := filepath.Join(outDir, "replays", "C18")
 	seen := map[string]bool{}
 	report := func(v *schedOut, bin string, race bool) {
 		if v.Violation == nil || seen[v.Violation.Key] || len(seen) >= 3 {
